@@ -184,9 +184,50 @@ pub fn contend(args: &[String]) {
 /// Option<Box<List>> }`) from an input nested N levels deep, on the main thread or on a spawned thread with
 /// the default stack. The decoded value is leaked so that only the decoder's own recursion is measured. A stack
 /// overflow aborts the process (SIGABRT), which is what the caller observes.
+fn zigzag_vi(n: usize) -> Vec<u8> {
+    let mut z = (n as u32) << 1;
+    let mut out = Vec::new();
+    loop {
+        if z < 128 {
+            out.push(z as u8);
+            return out;
+        }
+        out.push((z & 0x7f) as u8 | 0x80);
+        z >>= 7;
+    }
+}
+
+/// `deep N [main|thread] [ev]`: a recursive list nested N deep; with `ev` the list type has an evolution step, so
+/// every level is a record with a header and two chunks (the decoder opens a chunk region per level)
 pub fn deep(args: &[String]) {
     let n: usize = args[0].parse().unwrap();
     let on_thread = args.get(1).map(|s| s == "thread").unwrap_or(false);
+    if args.get(2).map(|s| s == "ev").unwrap_or(false) {
+        // ListEv { head, tail, note } with FieldAdded("note"): 01 size(c0) size(c1) c0 c1, built inside out
+        let mut inner: Vec<u8> = vec![1, 10, 2, 0, 0, 0, 0, 0, 0];
+        for _ in 0..n {
+            let mut c0 = vec![0, 0, 0, 7, 1];
+            c0.extend_from_slice(&inner);
+            let mut rec = vec![1];
+            rec.extend_from_slice(&zigzag_vi(c0.len()));
+            rec.push(2);
+            rec.extend_from_slice(&c0);
+            rec.push(0);
+            inner = rec;
+        }
+        let run = move || {
+            let r = desert::deserialize::<crate::catalogue::ListEv>(&inner);
+            let s = match &r {
+                Ok(_) => "ok".to_string(),
+                Err(e) => format!("err {}", err_class(e)),
+            };
+            std::mem::forget(r);
+            s
+        };
+        let s = if on_thread { std::thread::spawn(run).join().unwrap_or_else(|_| "panic".to_string()) } else { std::panic::catch_unwind(run).unwrap_or_else(|_| "panic".to_string()) };
+        println!("DEEP {n} {s}");
+        return;
+    }
     let mut bytes = Vec::with_capacity(6 * n + 6);
     for _ in 0..n {
         bytes.extend_from_slice(&[0, 0, 0, 0, 1, 1]);
